@@ -28,17 +28,22 @@ from vp.refs import integrity_ref as R
 LEVEL = "fault_enumeration"
 RULE = (
     "(a) rt_small: all 16x16 SlotType(colour code, data type) and all 16x2x4 EMB(colour code, PI, LCSS) combinations; "
-    "rt_pdu: Hypothesis-drawn field values for data header (5 formats), PI header, short LC (null, activity update), "
-    "confirmed / confirmed-last rate 1/2, 3/4, 1 blocks and HRNP (7 opcodes; DATA around library-serialised, "
-    "round-trip-stable HDAP payloads: captured ones and constructed RCP/TMP/LP/RRS); non-trivial = check value neither 0 "
-    "nor all-ones.  (b) words_*: complete enumeration of the 2^20 / 2^16 received words; every word is a distinct case. "
-    "(c) fault_*: per PDU kind, seeded random PDUs plus PDUs *constructed* to carry a low-weight check value; per PDU the "
-    "error patterns of the code's guaranteed detection set: all patterns of weight <= t (t=3 CRC-CCITT and CRC-8, t=2 CRC-9, "
-    "t=1 HRNP; weight 3 sampled in the quick tier for the 96-bit PDUs), all bursts up to a tier-dependent length with "
-    "every interior pattern, solid bursts of every length <= w and sampled interiors for the longer ones (w = 16/8/9, "
-    "15 for HRNP), generated in code-word order and mapped to wire positions.  A case is (PDU fields, flipped wire "
-    "positions); distinct by construction; non-trivial = the corruption was detected (indicator False or decode error) "
-    "as opposed to falling into bits the PDU does not interpret."
+    "rt_pdu: Hypothesis-drawn field values for data header (5 formats), PI header, short LC (null; activity update, plus "
+    "all 10x10 activity-id pairs with seeded addresses), confirmed / confirmed-last rate 1/2, 3/4, 1 blocks and HRNP "
+    "(7 opcodes; DATA around library-serialised, round-trip-stable HDAP payloads: captured ones and constructed "
+    "RCP/TMP/LP/RRS; one class with the packet number solved so that the ones-complement sum needs a second end-around "
+    "carry); non-trivial = check value neither 0 nor all-ones; distinct by hash of the field values.  "
+    "(b) words_*: complete enumeration of the 2^20 / 2^16 received words; every word is a distinct case.  "
+    "(c) fault_*: per PDU kind, seeded random PDUs plus PDUs *constructed* (window of check-width message bits solved on "
+    "the reference) to carry a check value of weight 1..2; per PDU the error patterns of the code's guaranteed detection "
+    "set: all patterns of weight <= t (t=3 CRC-CCITT and CRC-8, t=2 CRC-9, t=1 HRNP; weight 3 is sampled in the quick "
+    "tier for the 96-bit PDUs), all bursts up to a tier-dependent length with every interior pattern, solid bursts of "
+    "every length <= w and seeded sampled interiors for the longer ones (w = 16/8/9 from deg G, 15 for HRNP), generated "
+    "in code-word order and mapped to wire positions; for confirmed last blocks additionally every 32-bit message CRC "
+    "of weight 1..2 with the pattern that zeroes it.  HRNP patterns that shorten the length field are outside the "
+    "guaranteed set and counted under excluded_by_construction.  A case is (PDU fields, flipped wire positions); distinct "
+    "by construction; non-trivial = the corruption was detected (indicator False or decode error) or is a known finding, "
+    "as opposed to falling into bits the PDU does not interpret (parsed fields identical)."
 )
 ASSUMPTIONS = [
     "reference check values: CRC-CCITT/CRC-8/CRC-9 as polynomial remainders (vp/refs/gf2.py) with the standard's inversion "
